@@ -1,5 +1,522 @@
 /-
-  Props/C19.lean — property theorems for C19 (stub; to be filled in).
+  Props/C19.lean — C19: operations never mutate caller data and never hand out live internal state.
+
+  Model: Sem/Alias.lean (heap with identities, type-directed transformers driven by the regenerated
+  table `Generated.aliasing`, the caller's script of native mutations).  Helper lemmas: Lemmas/Alias.lean.
+
+  * `args_unchanged*`   — no operation writes into a pre-existing cell (arguments, instance, class), whatever
+                          the table says and whether or not it succeeds; `setattr` writes the instance cell only;
+                          an `argMutated` row is the only way to lose this (counterexample below).
+  * `returns_fresh`     — output side: if every site of the declaration is copied, no script of native
+                          mutations started from the returned value changes any pre-existing cell, hence
+                          (`returns_fresh_observe`) any observation of the instance / class.
+  * `retained_fresh_observe` — input side: if every site is copied, no script started from the caller's
+                          arguments changes any observation of what the operation built (the new instance's payload).
+  * `tables_ok`         — every row of today's table is safe, out of the statement's scope, or a listed finding.
+  * `C19_statement`     — the full statement (false today: `C19_statement_fails_today`);
+    `C19_partial`       — the statement for declarations that avoid exactly the listed finding rows;
+    `unsafe_rows_have_counterexamples` — for EVERY unsafe in-scope row of the table a kernel-checked history
+                          (operation, one poke, observation differs).
 -/
+import TypedpyModel.Lemmas.Alias
+import TypedpyModel.Generated.Aliasing
+import TypedpyModel.Pinned.Aliasing
 namespace Typedpy.C19
+open Typedpy.Alias
+
+/-! ## part 1 — arguments are never written -/
+
+/-- the walk of any operation, under ANY table, successful or not, leaves every pre-existing cell alone -/
+theorem args_unchanged (M : Kind → Cat → Mode) (fuel : Nat) (s : Shape) (h : Heap) (src : Item) (h' : Heap)
+    (r : Option Item) (e : transfer M fuel s h src = (h', r)) :
+    h.next ≤ h'.next ∧ ∀ a, a < h.next → h'.cells a = h.cells a :=
+  transfer_frame M fuel s h src h' r e
+
+/-- an operation as the table describes it keeps every pre-existing cell unless the row of its top-level
+    site is `argMutated` -/
+theorem args_unchanged_op (tbl : List AliasRow) (op : OpK) (top : Kind) (fuel : Nat) (s : Shape) (h : Heap)
+    (arg : Item) (hrow : ∀ row, lookupRow tbl op top .none = some row → row.argMutated = false) :
+    ∀ a, a < h.next → (execOp tbl op top fuel s h arg).1.cells a = h.cells a := by
+  intro a ha
+  have fr := transfer_frame (modeOf tbl op) fuel s h arg _ _ rfl
+  simp only [execOp]
+  cases hl : lookupRow tbl op top .none with
+  | none => exact fr.2 a ha
+  | some row =>
+    simp only [hrow row hl]
+    exact fr.2 a ha
+
+/-- `setattr` writes the instance cell and nothing else that existed before -/
+theorem setattr_frame (M : Kind → Cat → Mode) (fuel : Nat) (s : Shape) (h : Heap) (inst : Nat) (name : String)
+    (v : Item) : ∀ a, a < h.next → a ≠ inst → (setattrOp M fuel s h inst name v).1.cells a = h.cells a := by
+  intro a ha ne
+  simp only [setattrOp]
+  cases ht : transfer M fuel s h v with
+  | mk h1 o =>
+    have fr := transfer_frame M fuel s h v h1 o ht
+    cases o with
+    | none => exact fr.2 a ha
+    | some v' =>
+      simp only [Heap.write]
+      rw [if_neg ne]
+      exact fr.2 a ha
+
+/-- what an `argMutated` site does (the behaviour of `schema_to_struct_code` before commit d1407f7):
+    the caller's `required` list loses an element -/
+def mutatingTable : List AliasRow :=
+  [{ op := .schemaToCode, kind := .root, cat := .none, argMutated := true, returns := .scalar, retainsArg := false,
+     shallow := false, deep := false, astMode := "mutates", agree := true }]
+
+theorem arg_mutation_counterexample :
+    let h0 := Heap.ofList [⟨"dict", [("required", .ref 1)]⟩, ⟨"list", [("0", .atom 1), ("1", .atom 2)]⟩]
+    (execOp mutatingTable .schemaToCode .root 5 (.scalar .scalar) h0 (.ref 1)).1.cells 1 ≠ h0.cells 1 := by
+  decide
+
+/-! ## part 2 — what is handed out / kept is separate from what existed -/
+
+def roots : Item → List Nat
+  | .ref a => [a]
+  | .atom _ => []
+
+theorem newClosed_init (h : Heap) : NewClosed h.next h :=
+  fun _ ha hlt => absurd (Nat.lt_of_lt_of_le hlt ha) (Nat.lt_irrefl _)
+
+/-- everything reachable from the result of a fully copying walk was allocated by that walk -/
+theorem result_in_new_region {M : Kind → Cat → Mode} {fuel : Nat} {s : Shape} (hs : safeShape M s = true)
+    {h : Heap} {src : Item} {h' : Heap} {res : Item} (e : transfer M fuel s h src = (h', some res)) :
+    NewClosed h.next h' ∧ ∀ b, Held h' (roots res) b → h.next ≤ b ∧ b < h'.next := by
+  have fs := transfer_fresh h.next M fuel s hs h src h' res (Nat.le_refl _) (newClosed_init h) e
+  refine ⟨fs.1, ?_⟩
+  intro b hb
+  obtain ⟨r, hr, rb⟩ := hb
+  cases res with
+  | atom v => simp [roots] at hr
+  | ref a =>
+    simp only [roots, List.mem_singleton] at hr
+    subst hr
+    exact reach_new fs.1 (fs.2 r rfl) rb
+
+/-- **returns_fresh** (output side): the declaration's sites are all copied ⇒ for EVERY script of native
+    mutations applied to objects reachable from the returned value (and to objects the caller creates),
+    every cell that existed before the call — the instance's payload, the class's lists, the arguments —
+    is unchanged. -/
+theorem returns_fresh (M : Kind → Cat → Mode) (fuel : Nat) (s : Shape) (hs : safeShape M s = true)
+    (h : Heap) (src : Item) (h' : Heap) (res : Item) (e : transfer M fuel s h src = (h', some res))
+    (acts : List Act) (adm : AdmissibleAll h' (roots res) acts) :
+    ∀ a, a < h.next → (runScript h' (roots res) acts).1.cells a = h.cells a := by
+  have fr := transfer_frame M fuel s h src h' _ e
+  have nr := result_in_new_region hs e
+  have sp := script_protects (fun a => a < h.next) acts h' (roots res)
+    (fun a ha hlt => absurd hlt (Nat.not_lt.mpr (nr.2 a ha).1))
+    (fun a ha => Nat.lt_of_lt_of_le ha fr.1) adm
+  intro a ha
+  rw [sp.1 a ha, fr.2 a ha]
+
+/-- … hence no observation of anything that existed before (to any depth) changes -/
+theorem returns_fresh_observe (M : Kind → Cat → Mode) (fuel : Nat) (s : Shape) (hs : safeShape M s = true)
+    (h : Heap) (src : Item) (h' : Heap) (res : Item) (e : transfer M fuel s h src = (h', some res))
+    (acts : List Act) (adm : AdmissibleAll h' (roots res) acts) (cb : ClosedBelow h.next h)
+    (inst : Nat) (hi : inst < h.next) (n : Nat) :
+    observeN n (runScript h' (roots res) acts).1 (.ref inst) = observeN n h (.ref inst) := by
+  apply observe_agree (fun a => a < h.next)
+    (returns_fresh M fuel s hs h src h' res e acts adm) (fun a ha k hk => cb a ha k hk) n
+  intro a ea
+  simp only [Item.ref.injEq] at ea
+  subst ea
+  exact hi
+
+/-- input side, frame half (holds for ANY table): no script of native mutations applied to objects reachable
+    from the caller's arguments `K` (all of which existed before the call) writes into a cell the operation
+    allocated.  What makes the instance safe is `retained_fresh_observe` below: when every site copies, the
+    instance's payload lies entirely inside that region. -/
+theorem retained_fresh (M : Kind → Cat → Mode) (fuel : Nat) (s : Shape)
+    (h : Heap) (src : Item) (h' : Heap) (inst : Item) (e : transfer M fuel s h src = (h', some inst))
+    (cb : ClosedBelow h.next h) (K : List Nat) (hK : ∀ r, r ∈ K → r < h.next)
+    (acts : List Act) (adm : AdmissibleAll h' K acts) :
+    ∀ a, h.next ≤ a → a < h'.next → (runScript h' K acts).1.cells a = h'.cells a := by
+  have fr := transfer_frame M fuel s h src h' _ e
+  have cb' := closedBelow_frame cb fr
+  have sp := script_protects (fun a => h.next ≤ a ∧ a < h'.next) acts h' K
+    (by
+      intro a ha hp
+      obtain ⟨r, hr, rb⟩ := ha
+      exact absurd (reach_below cb' (hK r hr) rb) (Nat.not_lt.mpr hp.1))
+    (fun a ha => ha.2) adm
+  intro a h1 h2
+  exact sp.1 a ⟨h1, h2⟩
+
+/-- **retained_fresh** (input side): the declaration's sites are all copied ⇒ for EVERY script of native
+    mutations applied to objects reachable from the caller's arguments, every observation of what the
+    operation built (the new instance with its whole payload, to any depth) is unchanged. -/
+theorem retained_fresh_observe (M : Kind → Cat → Mode) (fuel : Nat) (s : Shape) (hs : safeShape M s = true)
+    (h : Heap) (src : Item) (h' : Heap) (inst : Item) (e : transfer M fuel s h src = (h', some inst))
+    (cb : ClosedBelow h.next h) (K : List Nat) (hK : ∀ r, r ∈ K → r < h.next)
+    (acts : List Act) (adm : AdmissibleAll h' K acts) (n : Nat) :
+    observeN n (runScript h' K acts).1 inst = observeN n h' inst := by
+  have fs := transfer_fresh h.next M fuel s hs h src h' inst (Nat.le_refl _) (newClosed_init h) e
+  apply observe_agree (fun a => h.next ≤ a ∧ a < h'.next)
+    (fun a ha => retained_fresh M fuel s h src h' inst e cb K hK acts adm a ha.1 ha.2)
+    (fun a ha k hk => fs.1 a ha.1 ha.2 k hk) n
+  intro a ea
+  exact fs.2 a ea
+
+/-- `setattr`: the value that ends up in the instance is a fresh copy that no script from the caller's
+    argument can reach (the rest of the instance is covered by `setattr_frame`) -/
+theorem setattr_value_fresh (M : Kind → Cat → Mode) (fuel : Nat) (s : Shape) (hs : safeShape M s = true)
+    (h : Heap) (v : Item) (h1 : Heap) (v' : Item) (e : transfer M fuel s h v = (h1, some v'))
+    (cb : ClosedBelow h.next h) (K : List Nat) (hK : ∀ r, r ∈ K → r < h.next)
+    (acts : List Act) (adm : AdmissibleAll h1 K acts) (n : Nat) :
+    observeN n (runScript h1 K acts).1 v' = observeN n h1 v' :=
+  retained_fresh_observe M fuel s hs h v h1 v' e cb K hK acts adm n
+
+/-! ## part 3 — the table -/
+
+/-- the retained-input clause of the statement speaks about typed fields given plain data: untyped content
+    (`Anything`, elements of untyped collections, undeclared keys, whatever a `NotField` lets through) and
+    Structure instances passed by reference (ClassReference) are shared by design -/
+def inScopeSite (op : OpK) (k : Kind) : Bool :=
+  !((op == .construct || op == .setattr || op == .deserialize) &&
+    (k == .any || k == .notF || (k == .struct && op != .deserialize)))
+
+def _root_.Typedpy.Alias.AliasRow.inScope (r : AliasRow) : Bool := inScopeSite r.op r.kind
+
+/-- a row is safe: no in-place edit of the argument, the two readings of the code agree, nothing handed on -/
+def _root_.Typedpy.Alias.AliasRow.safe (r : AliasRow) : Bool := !r.argMutated && r.agree && r.mode.copies
+
+/-- the known-finding rows (same sites as the keys in known_findings.json) -/
+def knownRows : List (OpK × Kind × Cat) := [
+  -- fast serialization / `<field>.serialize` return the stored collection itself
+  (.fieldSerialize, .array, .number), (.fieldSerialize, .array, .string), (.fieldSerialize, .array, .untyped),
+  (.fieldSerialize, .deque, .untyped), (.fieldSerialize, .map, .untyped),
+  (.fastSerialize, .array, .number), (.fastSerialize, .array, .string), (.fastSerialize, .array, .untyped),
+  (.fastSerialize, .deque, .untyped), (.fastSerialize, .map, .untyped),
+  -- OneOf / AllOf store the caller's object, not the option's normalised copy
+  (.construct, .oneOf, .coll), (.construct, .oneOf, .inline), (.construct, .oneOf, .wrap),
+  (.construct, .allOf, .coll), (.construct, .allOf, .inline), (.construct, .allOf, .wrap),
+  (.setattr, .oneOf, .coll), (.setattr, .oneOf, .inline), (.setattr, .oneOf, .wrap),
+  (.setattr, .allOf, .coll), (.setattr, .allOf, .inline), (.setattr, .allOf, .wrap),
+  -- a Set field without `items` keeps the caller's set
+  (.construct, .set, .untyped), (.setattr, .set, .untyped)]
+
+def isKnown (r : AliasRow) : Bool := knownRows.contains (r.op, r.kind, r.cat)
+
+def TablesOk (tbl : List AliasRow) : Prop := ∀ r, r ∈ tbl → (r.safe || !r.inScope || isKnown r) = true
+
+/-- obligation re-checked against the regenerated table on every run: a new aliasing / mutating site, or a
+    site where the source reading and the probe disagree, breaks it -/
+theorem tables_ok : TablesOk Generated.aliasing := by
+  unfold TablesOk
+  decide +kernel
+
+/-- the exclusion list is exact: every listed row is in today's table, in scope and unsafe -/
+theorem known_rows_are_findings :
+    knownRows.all (fun k => Generated.aliasing.any fun r =>
+      r.op == k.1 && r.kind == k.2.1 && r.cat == k.2.2 && !r.safe && r.inScope) = true := by
+  decide +kernel
+
+/-- no site of today's table edits an argument, and wherever the source idiom was recognised it agrees with the probe -/
+theorem no_arg_mutation_today : Generated.aliasing.all (fun r => !r.argMutated && r.agree) = true := by
+  decide +kernel
+
+/-- the committed snapshot the model was last aligned with has the same unsafe rows as today's table -/
+theorem pinned_same_findings :
+    (Generated.aliasing.filter fun r => !r.safe).map (fun r => (r.op, r.kind, r.cat)) =
+    (Pinned.aliasing.filter fun r => !r.safe).map (fun r => (r.op, r.kind, r.cat)) := by
+  decide +kernel
+
+/-! ## part 4 — from the table to the declaration -/
+
+def siteOk (tbl : List AliasRow) (op : OpK) (kc : Kind × Cat) : Bool :=
+  match lookupRow tbl op kc.1 kc.2 with
+  | some r => r.mode.copies
+  | none => false
+
+theorem modeOf_copies {tbl : List AliasRow} {op : OpK} {k : Kind} {c : Cat} (h : siteOk tbl op (k, c) = true) :
+    (modeOf tbl op k c).copies = true := by
+  simp only [siteOk] at h
+  simp only [modeOf]
+  cases hl : lookupRow tbl op k c with
+  | none => rw [hl] at h; exact absurd h (by decide)
+  | some r => rw [hl] at h; exact h
+
+theorem all_append {α : Type} {p : α → Bool} {l1 l2 : List α} (h : (l1 ++ l2).all p = true) :
+    l1.all p = true ∧ l2.all p = true := by
+  rw [List.all_append] at h
+  exact and_true_split h
+
+mutual
+theorem safeShape_of_sites (tbl : List AliasRow) (op : OpK) :
+    (s : Shape) → (sitesOf s).all (siteOk tbl op) = true → safeShape (modeOf tbl op) s = true
+  | .scalar _, _ => by simp [safeShape]
+  | .any, h => by
+    simp only [sitesOf, List.all_cons, List.all_nil, Bool.and_true] at h
+    simp only [safeShape]; exact modeOf_copies h
+  | .untyped, h => by
+    simp only [sitesOf, List.all_cons, List.all_nil, Bool.and_true] at h
+    simp only [safeShape]; exact modeOf_copies h
+  | .coll k s, h => by
+    simp only [sitesOf, List.all_cons] at h
+    have h' := and_true_split h
+    simp only [safeShape, modeOf_copies h'.1, safeShape_of_sites tbl op s h'.2, Bool.and_self]
+  | .keyed k fs, h => by
+    simp only [sitesOf, List.all_cons] at h
+    have h' := and_true_split h
+    simp only [safeShape, modeOf_copies h'.1, safeFields_of_sites tbl op fs h'.2, Bool.and_self]
+  | .wrap k s, h => by
+    simp only [sitesOf, List.all_cons] at h
+    have h' := and_true_split h
+    simp only [safeShape, modeOf_copies h'.1, safeShape_of_sites tbl op s h'.2, Bool.and_self]
+theorem safeFields_of_sites (tbl : List AliasRow) (op : OpK) :
+    (fs : List (String × Shape)) → (sitesOfFields fs).all (siteOk tbl op) = true → safeFields (modeOf tbl op) fs = true
+  | [], _ => by simp [safeFields]
+  | (_, s) :: rest, h => by
+    simp only [sitesOfFields] at h
+    have h' := all_append h
+    simp only [safeFields, safeShape_of_sites tbl op s h'.1, safeFields_of_sites tbl op rest h'.2, Bool.and_self]
+end
+
+/-- a site the statement speaks about and that is not a listed finding (a site the table does not know is
+    never admitted) -/
+def admitted (tbl : List AliasRow) (op : OpK) (kc : Kind × Cat) : Bool :=
+  match lookupRow tbl op kc.1 kc.2 with
+  | some r => r.inScope && !isKnown r
+  | none => false
+
+theorem lookupRow_mem {tbl : List AliasRow} {op : OpK} {k : Kind} {c : Cat} {r : AliasRow}
+    (h : lookupRow tbl op k c = some r) : r ∈ tbl := by
+  simp only [lookupRow] at h
+  exact List.mem_of_find?_eq_some h
+
+theorem admitted_ok {tbl : List AliasRow} (ok : TablesOk tbl) {op : OpK} {kc : Kind × Cat}
+    (h : admitted tbl op kc = true) : siteOk tbl op kc = true := by
+  simp only [admitted] at h
+  simp only [siteOk]
+  cases hl : lookupRow tbl op kc.1 kc.2 with
+  | none => rw [hl] at h; exact absurd h (by decide)
+  | some r =>
+    rw [hl] at h
+    simp only
+    have := ok r (lookupRow_mem hl)
+    have h' := and_true_split h
+    cases hsafe : r.safe with
+    | true =>
+      simp only [AliasRow.safe] at hsafe
+      exact (and_true_split hsafe).2
+    | false =>
+      rw [hsafe, h'.1] at this
+      have hk := h'.2
+      cases hkn : isKnown r with
+      | true => rw [hkn] at hk; exact absurd hk (by decide)
+      | false => rw [hkn] at this; exact absurd this (by decide)
+
+theorem all_imp {α : Type} {p q : α → Bool} (hpq : ∀ a, p a = true → q a = true) :
+    ∀ l : List α, l.all p = true → l.all q = true
+  | [], _ => rfl
+  | a :: rest, h => by
+    simp only [List.all_cons] at h ⊢
+    have h' := and_true_split h
+    rw [hpq a h'.1, all_imp hpq rest h'.2]; rfl
+
+/-! ## part 5 — the statement -/
+
+/-- what C19 says about one operation on one declaration: whatever heap it starts from, whatever it is
+    given, whether or not it succeeds, (1) every pre-existing cell is unchanged, and if it succeeds,
+    (2) no script of native mutations from the returned value changes a pre-existing cell and
+    (3) no script from pre-existing objects (the arguments) changes the region the operation built. -/
+def HoldsFor (tbl : List AliasRow) (op : OpK) (s : Shape) : Prop :=
+  ∀ (fuel : Nat) (h : Heap) (src : Item) (h' : Heap) (r : Option Item),
+    transfer (modeOf tbl op) fuel s h src = (h', r) →
+    (∀ a, a < h.next → h'.cells a = h.cells a) ∧
+    ∀ res, r = some res →
+      (∀ acts, AdmissibleAll h' (roots res) acts →
+        ∀ a, a < h.next → (runScript h' (roots res) acts).1.cells a = h.cells a) ∧
+      (ClosedBelow h.next h → ∀ K, (∀ x, x ∈ K → x < h.next) → ∀ acts, AdmissibleAll h' K acts →
+        ∀ n, observeN n (runScript h' K acts).1 res = observeN n h' res)
+
+def inScopeShape (op : OpK) (s : Shape) : Bool := (sitesOf s).all fun kc => inScopeSite op kc.1
+
+/-- **the full statement**: for every operation and every declaration within the statement's scope -/
+def C19_statement (tbl : List AliasRow) : Prop :=
+  ∀ (op : OpK) (s : Shape), inScopeShape op s = true → HoldsFor tbl op s
+
+theorem holdsFor_of_safe (tbl : List AliasRow) (op : OpK) (s : Shape)
+    (hs : safeShape (modeOf tbl op) s = true) : HoldsFor tbl op s := by
+  intro fuel h src h' r e
+  refine ⟨(transfer_frame _ fuel s h src h' r e).2, ?_⟩
+  intro res hr
+  subst hr
+  refine ⟨fun acts adm => returns_fresh _ fuel s hs h src h' res e acts adm, ?_⟩
+  intro cb K hK acts adm n
+  exact retained_fresh_observe _ fuel s hs h src h' res e cb K hK acts adm n
+
+/-- **C19_partial**: for ANY table that meets the obligation `TablesOk`, the statement holds for every
+    operation and every declaration all of whose sites are admitted (known to the table, in scope, and not
+    one of the listed known-finding rows) — the exclusion is the decidable predicate `admitted`. -/
+theorem C19_partial (tbl : List AliasRow) (ok : TablesOk tbl) (op : OpK) (s : Shape)
+    (adm : (sitesOf s).all (admitted tbl op) = true) : HoldsFor tbl op s :=
+  holdsFor_of_safe tbl op s
+    (safeShape_of_sites tbl op s (all_imp (fun _ h => admitted_ok ok h) _ adm))
+
+/-- today's code -/
+theorem C19_today (op : OpK) (s : Shape) (adm : (sitesOf s).all (admitted Generated.aliasing op) = true) :
+    HoldsFor Generated.aliasing op s :=
+  C19_partial _ tables_ok op s adm
+
+/-! ## part 6 — kernel-checked counterexamples for every unsafe row -/
+
+def witnessItem : Cat → Shape
+  | .number => .scalar .number
+  | .string => .scalar .string
+  | .any => .any
+  | .untyped => .untyped
+  | .coll => .coll .array (.scalar .number)
+  | .struct => .keyed .struct [("x", .scalar .number)]
+  | .inline => .keyed .inline [("x", .scalar .number)]
+  | .wrap => .wrap .anyOf (.coll .array (.scalar .number))
+  | _ => .scalar .scalar
+
+def witnessShape (k : Kind) (c : Cat) : Shape :=
+  match k with
+  | .array | .deque | .set | .immSet | .tuple | .map => .coll k (witnessItem c)
+  | .anyOf | .oneOf | .allOf | .notF => .wrap k (witnessItem c)
+  | .any => .any
+  | _ => .keyed k [("x", .scalar .number)]
+
+/-- cell 0: the top-level container (kwargs for input operations, the instance for output operations);
+    cell 1: the collection stored under key "f" -/
+def witnessHeap : Heap :=
+  Heap.ofList [⟨"top", [("f", .ref 1)]⟩, ⟨"list", [("0", .atom 1), ("x", .atom 2)]⟩]
+
+def topless (op : OpK) : Bool := op == .setattr || op == .fieldSerialize
+
+/-- run the row's operation on the witness, let the caller clear the collection (cell 1) — which it can
+    reach both from what it passed in and from what it got back — and compare observations of both sides -/
+def cexWorks (tbl : List AliasRow) (r : AliasRow) : Bool :=
+  let s := if topless r.op then witnessShape r.kind r.cat else .keyed .root [("f", witnessShape r.kind r.cat)]
+  let src : Item := if topless r.op then .ref 1 else .ref 0
+  match transfer (modeOf tbl r.op) 5 s witnessHeap src with
+  | (h', some res) =>
+    let poked := (runScript h' (roots res) [.write 1 ⟨"list", []⟩]).1
+    (reachList 4 h' res).contains 1                                     -- the poke is admissible from the result
+      && !(observeN 4 poked res).beq (observeN 4 h' res)                 -- input side: the new instance changed
+      && !(observeN 4 poked (.ref 0)).beq (observeN 4 h' (.ref 0))       -- output side: the source (instance) changed
+  | _ => false
+
+/-- for every unsafe in-scope row of today's table the model exhibits a history violating the statement:
+    operation, one native mutation of an object the caller legitimately holds, observation differs -/
+theorem unsafe_rows_have_counterexamples :
+    (Generated.aliasing.filter fun r => !r.safe && r.inScope).all (cexWorks Generated.aliasing) = true := by
+  decide +kernel
+
+theorem reachList_sound (h : Heap) : ∀ (n : Nat) (i : Item) (b : Nat), b ∈ reachList n h i → Held h (roots i) b := by
+  intro n
+  induction n with
+  | zero =>
+    intro i b hb
+    cases i with
+    | atom v => simp [reachList] at hb
+    | ref a =>
+      simp only [reachList, List.mem_singleton] at hb
+      subst hb
+      exact ⟨b, by simp [roots], Reach.refl _⟩
+  | succ n ih =>
+    intro i b hb
+    cases i with
+    | atom v => simp [reachList] at hb
+    | ref a =>
+      simp only [reachList, List.mem_cons, List.mem_flatten, List.mem_map] at hb
+      cases hb with
+      | inl e => subst e; exact ⟨b, by simp [roots], Reach.refl _⟩
+      | inr hx =>
+        obtain ⟨l, ⟨p, hp, rfl⟩, hbl⟩ := hx
+        have := ih p.2 b hbl
+        obtain ⟨r, hr, rb⟩ := this
+        cases hp2 : p.2 with
+        | atom v => rw [hp2] at hr; simp [roots] at hr
+        | ref c =>
+          rw [hp2] at hr
+          simp only [roots, List.mem_singleton] at hr
+          subst hr
+          refine ⟨a, by simp [roots], ?_⟩
+          have hk : r ∈ (h.cells a).kids := by
+            simp only [Cell.kids, List.mem_filterMap]
+            exact ⟨p, hp, by rw [hp2]; rfl⟩
+          have base : Reach h a r := Reach.step (Reach.refl a) hk
+          clear hbl ih hp hp2 hk
+          induction rb with
+          | refl => exact base
+          | step _ hk' ih' => exact Reach.step ih' hk'
+
+/-- the flagship finding as an explicit history: fast serialization of `Array[Integer]` returns the live
+    list; clearing the returned list empties the instance's field -/
+theorem fast_serialization_returns_live_list :
+    let s := Shape.keyed .root [("f", .coll .array (.scalar .number))]
+    let out := transfer (modeOf Generated.aliasing .fastSerialize) 5 s witnessHeap (.ref 0)
+    ∃ res, out.2 = some res ∧
+      Held out.1 (roots res) 1 ∧
+      observeN 3 (runScript out.1 (roots res) [.write 1 ⟨"list", []⟩]).1 (.ref 0) ≠ observeN 3 out.1 (.ref 0) := by
+  refine ⟨.ref 2, by decide, reachList_sound _ 3 (.ref 2) 1 (by decide), ?_⟩
+  intro h
+  have : (observeN 3 (runScript (transfer (modeOf Generated.aliasing .fastSerialize) 5
+      (Shape.keyed .root [("f", .coll .array (.scalar .number))]) witnessHeap (.ref 0)).1 (roots (.ref 2))
+      [.write 1 ⟨"list", []⟩]).1 (.ref 0)).beq
+      (observeN 3 (transfer (modeOf Generated.aliasing .fastSerialize) 5
+      (Shape.keyed .root [("f", .coll .array (.scalar .number))]) witnessHeap (.ref 0)).1 (.ref 0)) = false := by decide
+  rw [h] at this
+  revert this
+  decide
+
+/-- the full statement is false of today's code -/
+theorem C19_statement_fails_today : ¬ C19_statement Generated.aliasing := by
+  intro st
+  have hf := st .fastSerialize (Shape.keyed .root [("f", .coll .array (.scalar .number))]) (by decide)
+    5 witnessHeap (.ref 0) _ _ rfl
+  obtain ⟨res, hres, held, ne⟩ := fast_serialization_returns_live_list
+  have h2 := (hf.2 res hres).1 [.write 1 ⟨"list", []⟩]
+    (by
+      simp only [AdmissibleAll, Admissible, and_true]
+      exact ⟨held, fun k hk => by simp [Cell.kids] at hk⟩)
+  apply ne
+  have agree : ∀ a, a < witnessHeap.next → _ = _ := fun a ha => (h2 a ha).trans (hf.1 a ha).symm
+  apply observe_agree (fun a => a < witnessHeap.next) agree
+  · intro a ha k hk
+    have fr := hf.1 a ha
+    rw [fr] at hk
+    revert hk
+    have : a = 0 ∨ a = 1 := by
+      have : a < 2 := ha
+      omega
+    cases this with
+    | inl e => subst e; simp [witnessHeap, Heap.ofList, Cell.kids, Item.addr?]; intro e; subst e; decide
+    | inr e => subst e; simp [witnessHeap, Heap.ofList, Cell.kids, Item.addr?]
+  · intro a ea
+    simp only [Item.ref.injEq] at ea
+    subst ea
+    decide
+
+/-! ## part 7 — non-vacuity -/
+
+/-- a non-trivial declaration (Array[Array[Integer]], Map[String, Array[Integer]], a nested structure)
+    is admitted under the regular Serializer and under construction, the operation succeeds on a concrete
+    heap, and the returned document shares no cell with the instance -/
+def exampleShape : Shape :=
+  .keyed .root [("a", .coll .array (.coll .array (.scalar .number))),
+                ("m", .coll .map (.coll .array (.scalar .number))),
+                ("i", .keyed .inline [("x", .scalar .number), ("l", .coll .array (.scalar .string))])]
+
+def exampleHeap : Heap := Heap.ofList [
+  ⟨"inst", [("a", .ref 1), ("m", .ref 3), ("i", .ref 5)]⟩,
+  ⟨"list", [("0", .ref 2)]⟩, ⟨"list", [("0", .atom 1), ("1", .atom 2)]⟩,
+  ⟨"dict", [("k", .ref 4)]⟩, ⟨"list", [("0", .atom 3)]⟩,
+  ⟨"inst", [("x", .atom 7), ("l", .ref 6)]⟩, ⟨"list", [("0", .atom 8)]⟩]
+
+theorem C19_example :
+    (sitesOf exampleShape).all (admitted Generated.aliasing .serialize) = true ∧
+    (sitesOf exampleShape).all (admitted Generated.aliasing .construct) = true ∧
+    (match transfer (modeOf Generated.aliasing .serialize) 9 exampleShape exampleHeap (.ref 0) with
+     | (h', some res) => sameBelow 7 exampleHeap h' && (reachList 6 h' res).all (fun a => decide (7 ≤ a))
+                          && (reachList 6 h' res).length == 7
+     | _ => false) = true := by
+  decide +kernel
+
 end Typedpy.C19
